@@ -319,6 +319,93 @@ func init() {
 		return nil
 	}
 
+	// sync.Map: an association list of interface-typed keys (symbolic keys compare through the
+	// solver); every method is one atomic step.
+	anyT := types.NewInterfaceType(nil, nil)
+	smapOf := func(o *syncObj) *smap {
+		if m, ok := o.val.(*smap); ok && m != nil {
+			return m
+		}
+		m := makeMap(anyT, 0).(*smap)
+		o.val = m
+		return m
+	}
+	nilIface := iface{}
+	externals["(*sync.Map).Load"] = func(fr *frame, args []value) value {
+		o := syncObjFor(args[0])
+		m := smapOf(o)
+		syncOp(opAtomicLoad, o, nil, "sync.Map.Load")
+		if v, ok := m.lookup(args[1]); ok {
+			return tuple{v, true}
+		}
+		return tuple{nilIface, false}
+	}
+	externals["(*sync.Map).Store"] = func(fr *frame, args []value) value {
+		o := syncObjFor(args[0])
+		m := smapOf(o)
+		syncOp(opAtomicStore, o, m, "sync.Map.Store")
+		theInterp.logMap(m)
+		m.insert(args[1], args[2])
+		return nil
+	}
+	externals["(*sync.Map).LoadOrStore"] = func(fr *frame, args []value) value {
+		o := syncObjFor(args[0])
+		m := smapOf(o)
+		syncOp(opAtomicStore, o, m, "sync.Map.LoadOrStore")
+		if v, ok := m.lookup(args[1]); ok {
+			return tuple{v, true}
+		}
+		theInterp.logMap(m)
+		m.insert(args[1], args[2])
+		return tuple{args[2], false}
+	}
+	externals["(*sync.Map).LoadAndDelete"] = func(fr *frame, args []value) value {
+		o := syncObjFor(args[0])
+		m := smapOf(o)
+		syncOp(opAtomicStore, o, m, "sync.Map.LoadAndDelete")
+		if v, ok := m.lookup(args[1]); ok {
+			theInterp.logMap(m)
+			m.delete(args[1])
+			return tuple{v, true}
+		}
+		return tuple{nilIface, false}
+	}
+	externals["(*sync.Map).Delete"] = func(fr *frame, args []value) value {
+		o := syncObjFor(args[0])
+		m := smapOf(o)
+		syncOp(opAtomicStore, o, m, "sync.Map.Delete")
+		theInterp.logMap(m)
+		m.delete(args[1])
+		return nil
+	}
+	externals["(*sync.Map).Swap"] = func(fr *frame, args []value) value {
+		o := syncObjFor(args[0])
+		m := smapOf(o)
+		syncOp(opAtomicStore, o, m, "sync.Map.Swap")
+		prev, ok := m.lookup(args[1])
+		theInterp.logMap(m)
+		m.insert(args[1], args[2])
+		if ok {
+			return tuple{prev, true}
+		}
+		return tuple{nilIface, false}
+	}
+	externals["(*sync.Map).Range"] = func(fr *frame, args []value) value {
+		o := syncObjFor(args[0])
+		m := smapOf(o)
+		syncOp(opAtomicLoad, o, nil, "sync.Map.Range")
+		keys := append([]value(nil), m.keys...)
+		vals := append([]value(nil), m.vals...)
+		for i := range keys {
+			if r := call(theInterp, fr, 0, args[1], []value{keys[i], vals[i]}); r != nil {
+				if b, ok := r.(bool); ok && !b {
+					break
+				}
+			}
+		}
+		return nil
+	}
+
 	// sync/atomic typed values (generic Pointer[T] and the fixed-size types)
 	atomicLoad := func(fr *frame, args []value) value {
 		o := syncObjFor(args[0])
